@@ -28,6 +28,7 @@ type managedCase struct {
 	Method  string `json:"method"`  // web | nuts
 	Time    string `json:"time"`    // nil | before-first | at-first | between | at-last | after | far-future
 	Allow   bool   `json:"allow_deactivated"`
+	Clock   string `json:"clock,omitempty"` // clock grid: offset of the newest version's row time relative to the node's clock
 }
 
 type history struct {
@@ -229,6 +230,106 @@ func sectionManaged(t *testing.T, r *ev.Run) {
 	}
 	r.Bound("managed_cells", cells)
 	r.Bound("managed_histories", len(hs))
+	clockGrid(t, r, db, rs, build)
 	_ = ssi.URI{}
 	_ = core.ServerConfig{}
 }
+
+// clockGrid: the newest version of a managed did:web carries row times (created_at / updated_at, as the SQL rows hold them) that
+// lie before, at or AHEAD of the resolving node's clock — a second node on the same database with a skewed clock, a clock stepped
+// back after the write, a migrated history. The resolver's query tolerates one hour (`time.Now().Add(time.Hour)` in
+// SqlDIDDocumentManager.Latest); within that slack the newest version is the state of the DID "now", so:
+// no outbound request, and a DID whose newest version is the deactivation does not resolve unless allowed. Beyond the slack, and
+// for "as of now" / "as of one second before the version", invisibility is legitimate: outcomes only.
+// The row time is written immediately before each resolution and every judged cell is >= 60 s away from the one-hour bound.
+func clockGrid(t *testing.T, r *ev.Run, db *gorm.DB, rs resolver.DIDResolver, build func(name string, update, deactivate bool) history) {
+	l := theLab()
+	type kind struct {
+		name string
+		h    history
+	}
+	kinds := []kind{{"first-version", build("clock-first", false, false)}, {"update", build("clock-update", true, false)}, {"deactivation", build("clock-deactivation", true, true)}}
+	offsets := []struct {
+		name   string
+		sec    int64
+		within bool // within the product's slack: the version is part of the DID's state now
+	}{{"-1h", -3600, true}, {"-1s", -1, true}, {"0", 0, true}, {"+1s", 1, true}, {"+30s", 30, true}, {"+5min", 300, true}, {"+59min", 3540, true}, {"+61min", 3660, false}}
+	cells := 0
+	for _, k := range kinds {
+		id := k.h.dids["web"]
+		newest := len(k.h.times) - 1
+		for _, off := range offsets {
+			for _, md := range []string{"nil", "allow-deactivated", "resolve-time=now", "resolve-time=version-1s", "resolve-time=version+1s"} {
+				now := time.Now().Unix()
+				vt := now + off.sec
+				if res := db.Exec("UPDATE did_document_version SET created_at = ?, updated_at = ? WHERE did = ? AND version = ?", vt, vt, id.String(), newest); res.Error != nil || res.RowsAffected != 1 {
+					t.Fatalf("clock grid: setting the row time of %s: %v", id, res.Error)
+				}
+				var m *resolver.ResolveMetadata
+				judged := off.within
+				switch md {
+				case "allow-deactivated":
+					m = &resolver.ResolveMetadata{AllowDeactivated: true}
+				case "resolve-time=now":
+					x := time.Unix(now, 0)
+					m = &resolver.ResolveMetadata{ResolveTime: &x}
+					judged = off.sec <= -1 // "as of now" only speaks about versions that are in the past
+				case "resolve-time=version-1s":
+					x := time.Unix(vt-1, 0)
+					m = &resolver.ResolveMetadata{ResolveTime: &x}
+					judged = false // the version does not exist yet at that time
+				case "resolve-time=version+1s":
+					x := time.Unix(vt+1, 0)
+					m = &resolver.ResolveMetadata{ResolveTime: &x}
+					judged = true // as of a time after the version, whatever the clock says
+				}
+				c := managedCase{Section: "managed", History: k.name, Method: "web", Time: md, Allow: md == "allow-deactivated", Clock: off.name}
+				l.Take()
+				doc, _, err := rs.Resolve(id, m)
+				hits, dials := l.Take()
+				cells++
+				r.Eval(ev.Key(c))
+				outcome := "error"
+				switch {
+				case err == nil:
+					outcome = "resolved"
+				case errors.Is(err, resolver.ErrDeactivated):
+					outcome = "deactivated"
+				case errors.Is(err, resolver.ErrNotFound):
+					outcome = "not-found"
+				}
+				outbound := len(hits)+len(dials) > 0
+				r.Outcome(fmt.Sprintf("clock grid newest=%s within-slack=%v judged=%v %s -> %s outbound=%v", k.name, off.within, judged, mdClass(md), outcome, outbound))
+				when := "newest-version-not-ahead-of-clock"
+				if off.sec > 0 {
+					when = "newest-version-ahead-of-clock"
+				}
+				what := fmt.Sprintf("managed %s whose newest version (%s) is stamped %s relative to the node's clock, resolved with %s: %s, outbound attempts %v", id, k.name, off.name, md, outcome, dials)
+				if !judged {
+					if outbound && !(md == "resolve-time=version-1s" && k.name == "first-version") {
+						r.Observation("clock grid, not judged: outbound request for a managed DID ("+k.name+" "+off.name+" "+mdClass(md)+")", nil)
+					}
+					continue
+				}
+				if outbound {
+					r.Violation("C18|managed|outbound-request|web|"+when, what, c)
+				}
+				if err == nil && (doc == nil || !doc.ID.Equals(id)) {
+					r.Violation("C18|managed|id-differs|web", what, c)
+				}
+				if k.name == "deactivation" && md != "allow-deactivated" && err == nil {
+					r.Violation("C18|managed|deactivated-resolves|web|"+when, what+" — the previous, active version was returned", c)
+				}
+				if k.name == "deactivation" && md == "allow-deactivated" && err != nil {
+					r.Observation("clock grid: deactivated managed DID does not resolve although allowed ("+off.name+")", err.Error())
+				}
+				if k.name != "deactivation" && err != nil && !outbound {
+					r.Observation("clock grid: an active managed DID within the slack does not resolve ("+k.name+" "+off.name+" "+mdClass(md)+")", err.Error())
+				}
+			}
+		}
+	}
+	r.Bound("managed_clock_cells", cells)
+}
+
+func mdClass(md string) string { return strings.ReplaceAll(md, "resolve-time=", "as-of-") }
